@@ -826,7 +826,14 @@ func (in *Interp) conv(dst, src types.Type, x value) value {
 				return in.mkStr(bs)
 			case *smt.Term:
 				if !xv.IsConst() {
-					in.unsupported("string(symbolic rune)")
+					// a symbolic rune: supported when it is ASCII under the path condition (one byte, no encoding)
+					sb := basicOf(us)
+					ascii := c.And(in.intBinop(token.GEQ, sb, sb, xv, in.intConst(sb, big.NewInt(0))).(*smt.Term),
+						in.intBinop(token.LSS, sb, sb, xv, in.intConst(sb, big.NewInt(0x80))).(*smt.Term))
+					if !in.branch(ascii, "string(rune)-ascii") {
+						in.unsupported("string(symbolic non-ASCII rune)")
+					}
+					return in.mkStr([]*smt.Term{in.convInt(xv, sb, basicOf(types.Typ[types.Uint8]))})
 				}
 				return string(rune(in.termInt(xv, src).Int64()))
 			}
